@@ -33,6 +33,13 @@ def gen_project(rng, kind="ok", pid="p"):
         hdr.append(f"timingresolution {res_min}min")
     if rng.random() < 0.3:
         hdr.append('timeformat "%Y-%m-%d %H:%M"')
+    # project-wide settings: they must stay with the project that declares them
+    if rng.random() < 0.35:
+        hdr.append(f"dailyworkinghours {rng.choice([6, 7, 7.5, 10])}")
+    if rng.random() < 0.2:
+        hdr.append(f"yearlyworkingdays {rng.choice([200, 230, 260])}")
+    if rng.random() < 0.2:
+        hdr.append(f'currency "{rng.choice(["EUR", "USD", "CHF"])}"')
     if rng.random() < 0.15:
         hdr.append("scheduling alap" if kind == "ok" and rng.random() < 0.3 else "scheduling asap")
     scen_ids = ["plan"]
@@ -85,6 +92,8 @@ def gen_project(rng, kind="ok", pid="p"):
         a = []
         eff = rng.choice([2, 4, 6, 8, 12, 20, 30])
         unit = "h"
+        if kind == "ok" and rng.random() < 0.3:
+            eff, unit = rng.choice([(1, "d"), (2, "d"), (3, "d"), (1, "w"), (90, "min")])
         if kind == "lowefficiency":
             eff = rng.choice([40, 80])
         r = rng.choice(rids)
